@@ -1076,6 +1076,13 @@ func eagrReplayOf(b *eagrBFS, path func() []eagrEv) any {
 
 func eagrRunCheck(t *testing.T, c *eagrCheck) {
 	r := ve.NewRun(c.id, c.level)
+	if len(c.configs) > 0 {
+		inits, note := eagrProbeRestorePath(c.configs[0].cfg.env)
+		for _, b := range c.configs {
+			b.cfg.restoreInitsPersist = inits
+		}
+		r.Note("restore-path probe: %s", note)
+	}
 	if raw := r.ReplayRequest(); raw != nil {
 		var rp eagrReplayFile
 		if err := json.Unmarshal(raw, &rp); err != nil {
